@@ -83,7 +83,7 @@ func c07GenExact() *rapid.Generator[c07ExactCase] {
 		limit := 2 * c.Cfg.M
 		if c.Cfg.EfC < limit {
 			// the ef-bounded layer search of an insert returns at most efConstruction candidates
-			c.Literal = rapid.IntRange(0, 3).Draw(t, "literal") == 0
+			c.Literal = rapid.IntRange(0, 2).Draw(t, "literal") == 0
 			if !c.Literal {
 				limit = c.Cfg.EfC
 			}
@@ -115,9 +115,9 @@ func c07GenExact() *rapid.Generator[c07ExactCase] {
 		query := func() c07Op {
 			op := c07Op{K: "query"}
 			op.Q = c07GenVec(t, c.Cfg.Dim, vecs, "q")
-			maxK := len(live) + 2
-			if maxK < 1 {
-				maxK = 1
+			maxK := len(live)
+			if maxK < 1 || rapid.IntRange(0, 5).Draw(t, "kBeyondLive") == 0 {
+				maxK = len(live) + 2
 			}
 			op.QK = rapid.IntRange(1, maxK).Draw(t, "k")
 			op.Ef = rapid.SampledFrom([]int{0, 0, 1, op.QK, 64}).Draw(t, "ef")
@@ -152,7 +152,7 @@ func c07GenExact() *rapid.Generator[c07ExactCase] {
 				c.Ops = append(c.Ops, c07Op{K: "vacuum"})
 			case w < 76:
 				c.Ops = append(c.Ops, c07Op{K: "refine"})
-			case w < 79 && prec == "float32" && len(live) > 0:
+			case w < 81 && prec == "float32" && len(live) > 0:
 				to := "float16"
 				if c.Cfg.Metric == "cosine" {
 					to = "int8"
@@ -160,7 +160,7 @@ func c07GenExact() *rapid.Generator[c07ExactCase] {
 				prec = to
 				deadNodes = 0
 				c.Ops = append(c.Ops, c07Op{K: "compress", To: to})
-			case w < 82:
+			case w < 84:
 				c.Ops = append(c.Ops, c07Op{K: "snapshot"})
 			case w < 88:
 				c.Ops = append(c.Ops, c07Op{K: "restart"})
